@@ -21,13 +21,25 @@ pub struct Ev {
 }
 
 impl Ev {
+    /// an integer above 2^53 and a float that is not a short decimal: values that do not
+    /// survive a detour through f64 / f32 / a lossy text form
+    pub fn big(&self) -> i64 {
+        9_007_199_254_740_993 + self.k
+    }
+    pub fn frac(&self) -> f64 {
+        self.k as f64 + 0.1
+    }
     pub fn store_cmd(&self) -> String {
-        format!("STORE {} FOR {} PAYLOAD {{\"k\":{},\"s\":\"v{}\",\"t{}\":1}}", self.typ, self.ctx, self.k, self.k, self.typ)
+        format!("STORE {} FOR {} PAYLOAD {{\"k\":{},\"s\":\"v{}\",\"t{}\":1,\"n\":{},\"f\":{:?}}}", self.typ, self.ctx, self.k, self.k, self.typ, self.big(), self.frac())
+    }
+    /// what `parse_obs` reports in the payload slot of `Obs::detail` for an intact row
+    pub fn payload_sig(&self) -> String {
+        format!("v{}|{}|{:?}", self.k, self.big(), self.frac())
     }
 }
 
 pub fn define_cmd(typ: &str) -> String {
-    format!("DEFINE {typ} FIELDS {{ k: \"int\", s: \"string\", t{typ}: \"int\" }}")
+    format!("DEFINE {typ} FIELDS {{ k: \"int\", s: \"string\", t{typ}: \"int\", n: \"int\", f: \"float\" }}")
 }
 
 /// Parallel map on `threads` OS threads, preserving order.
@@ -141,7 +153,12 @@ pub fn parse_obs(replies: &[Reply], types: &[&str], ctxs: &[&str]) -> Obs {
                 match row.get("k").and_then(|v| v.as_i64()) {
                     Some(k) => {
                         ks.push(k);
-                        let s = row.get("s").and_then(|v| v.as_str()).unwrap_or("<none>").to_string();
+                        let s = format!(
+                            "{}|{}|{}",
+                            row.get("s").and_then(|v| v.as_str()).unwrap_or("<none>"),
+                            row.get("n").map(|v| v.to_string()).unwrap_or("<none>".into()),
+                            row.get("f").and_then(|v| v.as_f64()).map(|f| format!("{f:?}")).unwrap_or("<none>".into())
+                        );
                         let c = row.get("context_id").and_then(|v| v.as_str()).unwrap_or("<none>").to_string();
                         let ty = row.get("event_type").and_then(|v| v.as_str()).unwrap_or("<none>").to_string();
                         o.detail.entry(k).or_default().push((ty, c, s));
